@@ -1,7 +1,7 @@
 /-
   C16: `PartialSVDSolver::compute` calls `m_eigs->init()` itself, so — by the non-interference theorem of the inner solver (C06) —
   its outcome and everything the inner solver hands out afterwards are independent of the object's history.  Together with
-  `c16_latest_partial` this says: with an empty cache the factors are exactly what a FRESH solver returns for the same arguments
+  `c16_latest` this says: the factors are exactly what a FRESH solver returns for the same arguments
   (the predicate the harness evaluates on the real class).
 -/
 import SpectraVerif.Proofs.OrchNonint
